@@ -97,6 +97,28 @@ def check_hforms(ctx: Ctx, c: Dict[str, Any]) -> None:
             o = o.reshape(-1, P.shape[0], D)
             if o.shape[0] != e.shape[0] or max_err(o, e) > TOL * max(1.0, float(e.abs().max())):
                 bad("homogeneous_transform", f"{nm} applied to {name} differs from the specified map", vectors=vflag, how=nm)
+    # conversion to a full matrix with an extra translation offset: the linear part stays, the offset ADDS to the translation
+    from deepali.core.linalg import homogeneous_matrix
+
+    for x_, ten in ((c["a"], a), (c["b"], b)):
+        items = x_["items"] if x_["batch"] == "many" else x_["items"][:1]
+        eye = torch.eye(D, dtype=torch.float64)
+        base = torch.stack([torch.cat([eye if x_["form"] == "T" else torch.tensor(fl(F(it["A"])), dtype=torch.float64),
+                                       (torch.zeros(D, dtype=torch.float64) if x_["form"] == "A" else torch.tensor(fl(F(it["t"])), dtype=torch.float64)).reshape(D, 1)], dim=1) for it in items])
+        for oname, off in (("none", None), ("scalar", torch.tensor(0.75, dtype=torch.float64)), ("vector", torch.tensor([0.5, -1.25, 2.0][:D], dtype=torch.float64))):
+            e = base.clone()
+            if off is not None:
+                e[..., D] += off
+            before = ten.clone()
+            try:
+                hm_ = homogeneous_matrix(ten, offset=off)
+            except Exception as ex:
+                bad("homogeneous_matrix", f"raised {type(ex).__name__}: {ex}", exc=type(ex).__name__, form=x_["form"], offset=oname)
+                continue
+            if hm_.shape[-2:] != (D, D + 1) or hm_.reshape(-1, D, D + 1).shape[0] != e.shape[0] or max_err(hm_.reshape(-1, D, D + 1), e) > TOL * max(1.0, float(e.abs().max())):
+                bad("homogeneous_matrix", f"full matrix of a {x_['form']} operand with offset={oname} differs from [A | t + offset]", form=x_["form"], offset=oname)
+            if max_err(ten, before) > 0:
+                bad("homogeneous_matrix", "changed its argument", form=x_["form"], offset=oname, what="mutates")
     # conversion to a full matrix does not change the map
     fa_exp = torch.tensor([[list(r) + [0.0] for r in fl(F(it["A"]))] for it in c["a"]["items"]], dtype=torch.float64)
     ctx.count(key=json.dumps(sig0, sort_keys=True) + json.dumps(c["a"]["items"]) + json.dumps(c["b"]["items"]),
@@ -242,6 +264,23 @@ def check_rotation(ctx: Ctx, c: Dict[str, Any], k: int) -> None:
         ql = guarded("quaternion_exp_to_log", lambda: L.quaternion_log_to_exp(L.quaternion_exp_to_log(q)), **sig)
         if ql is not None:
             same("quaternion_log_exp", guarded("quaternion_to_rotation_matrix", lambda: L.quaternion_to_rotation_matrix(ql), **sig), **sig)
+        # the same axis with SMALL angles (around the switch to the series expansion near zero): Rodrigues' formula in float64
+        K = torch.tensor([[0.0, -kax[2], kax[1]], [kax[2], 0.0, -kax[0]], [-kax[1], kax[0], 0.0]], dtype=torch.float64)
+        for ths in (2e-3, 1.5e-3, 9e-4, 5e-4, 1e-4, -7e-4, 1e-6):
+            Ms = torch.eye(3, dtype=torch.float64) + math.sin(ths) * K + (1 - math.cos(ths)) * (K @ K)
+            for dt in (torch.float64, torch.float32):
+                got = guarded("angle_axis_to_rotation_matrix", lambda: L.angle_axis_to_rotation_matrix((kax * ths).unsqueeze(0).to(dt)), small=True)
+                if got is not None and max_err(got.double().reshape(-1, 3, 3)[0], Ms) > max(2e-7, 2 * ths * ths):
+                    bad("angle_axis_to_rotation_matrix", f"rotation by the small angle {ths} differs from Rodrigues' formula by {max_err(got.double().reshape(-1, 3, 3)[0], Ms):.3g}", small=True)
+                    break
+            qs = guarded("angle_axis_to_quaternion", lambda: L.angle_axis_to_quaternion((kax * ths).unsqueeze(0)), small=True)
+            if qs is not None:
+                got = guarded("quaternion_to_rotation_matrix", lambda: L.quaternion_to_rotation_matrix(qs), small=True)
+                if got is not None and max_err(got.double().reshape(-1, 3, 3)[0], Ms) > max(2e-7, 2 * ths * ths):
+                    bad("angle_axis_to_quaternion", f"quaternion of the small rotation {ths} gives a matrix off by {max_err(got.double().reshape(-1, 3, 3)[0], Ms):.3g}", small=True)
+            aas = guarded("rotation_matrix_to_angle_axis", lambda: L.rotation_matrix_to_angle_axis(Ms.unsqueeze(0)), small=True)
+            if aas is not None and max_err(aas.double().reshape(-1)[:3], kax * ths) > max(2e-7, 2 * ths * ths):
+                bad("rotation_matrix_to_angle_axis", f"rotation vector of the small rotation {ths} is off by {max_err(aas.double().reshape(-1)[:3], kax * ths):.3g}", small=True)
         from deepali.core.grid import Grid
         from deepali.spatial import QuaternionRotation
 
